@@ -74,9 +74,10 @@ func (f *forExpander) run() {
 		state = state(f)
 	}
 
-	// add an extra EOF in case we end without one
-	// we don't want to block on reading from the channel
-	f.tokens <- token{tokEOF, ""}
+	// end the stream in case we end without an EOF: a reader that is still
+	// waiting gets one from the closed channel, and nothing blocks here when
+	// the reader has already left after an EOF or error token
+	close(f.tokens)
 	f.closed = true
 }
 
@@ -84,7 +85,11 @@ func (f *forExpander) NextToken() (token, error) {
 	if f.closed {
 		return token{}, fmt.Errorf("no more tokens")
 	}
-	return <-f.tokens, nil
+	tok, ok := <-f.tokens
+	if !ok {
+		return token{tokEOF, ""}, nil
+	}
+	return tok, nil
 }
 
 func (f *forExpander) Tokens() ([]token, error) {
@@ -92,8 +97,11 @@ func (f *forExpander) Tokens() ([]token, error) {
 		return nil, fmt.Errorf("no more tokens")
 	}
 	tokens := make([]token, 0)
-	for !f.closed {
-		tok := <-f.tokens
+	for {
+		tok, ok := <-f.tokens
+		if !ok {
+			tok = token{tokEOF, ""}
+		}
 		tokens = append(tokens, tok)
 		if tok.typ == tokEOF || tok.typ == tokError {
 			break
